@@ -29,15 +29,18 @@ def _c09_post(results):
                 a[0] += v
                 a[1] += st.get("hft_phases@" + rate, 0)
                 a[2].append([r["batch"], r["idx"]])
+    from scipy.stats import binom
     out = []
     for rate, (n, k, runs) in sorted(agg.items()):
         p = float(rate)
         if n < 200:
             continue
-        bound = 7.0 * math.sqrt(n * p * (1 - p)) + 1.0
-        if abs(k - n * p) > bound:
+        # exact two-sided binomial test at 1e-11 (with few expected events the sample simply cannot reject)
+        tail = min(float(binom.cdf(k, n, p)), float(binom.sf(k - 1, n, p)))
+        if tail < 1e-11:
             out.append({"kind": "hft_phase_frequency", "runs": runs,
-                        "detail": {"configured_rate": p, "batches": n, "followed_by_phase": k, "expected": n * p, "bound": bound}})
+                        "detail": {"configured_rate": p, "batches": n, "followed_by_phase": k, "expected": n * p,
+                                   "binomial_tail_probability": tail}})
     return out
 
 
@@ -173,6 +176,7 @@ def registry() -> Dict[str, Check]:
         "C09", {"C09", "C03"},
         [Batch("A-sessions", gen_a.gen_world, 6000, 80000, driver="A", budget_s=90.0, profile="sessions"),
          Batch("A-crowd", gen_a.gen_crowd, 200, 4000, driver="A", budget_s=300.0, profile="crowd"),
+         Batch("A-rates", gen_a.gen_rates, 480, 4800, driver="A", budget_s=120.0, profile="rates"),
          Batch("A-long", gen_a.gen_long, 400, 8000, driver="A", budget_s=300.0, profile="world:sessions")],
         plugins=lambda: [oracles_a.SessionRulesPlugin()],
         nontrivial=lambda s: s["probes"].get("normal_cap_reached", 0) + s["probes"].get("hft_cap_reached", 0) > 0,
